@@ -55,6 +55,7 @@ type HSpec struct {
 type SOp struct {
 	Op     string  `json:"op"`               // raw | append | reuse | on | alias
 	Parent *int    `json:"parent,omitempty"` // append: nil = a context without manager
+	Over   *int    `json:"over,omitempty"`   // raw / alias: InitCallbacks is called on the context of that unit (nil = a fresh context)
 	New    int     `json:"new,omitempty"`
 	Inf    int     `json:"inf,omitempty"`
 	Off    int     `json:"off,omitempty"`   // raw: offset of the slice in its backing array
@@ -83,9 +84,10 @@ type GNode struct {
 	After    []int      `json:"after,omitempty"`  // stop: keys of nodes of the stage before named in WithInterruptAfterNodes
 	Natives  int        `json:"natives,omitempty"`
 	Fails    bool       `json:"fails,omitempty"`
-	Panics   bool       `json:"panics,omitempty"` // lambda (with Fails): the node fails by panicking; eino contains the panic and reports it as the node\'s error
-	Intr     int        `json:"intr,omitempty"`   // lambda: the first Intr executions return compose.InterruptAndRerun
-	SelfCB   bool       `json:"selfcb,omitempty"` // the lambda fires its callbacks itself (WithLambdaCallbackEnable)
+	Panics   bool       `json:"panics,omitempty"`  // lambda (with Fails): the node fails by panicking; eino contains the panic and reports it as the node\'s error
+	Intr     int        `json:"intr,omitempty"`    // lambda: the first Intr executions return compose.InterruptAndRerun
+	SelfCB   bool       `json:"selfcb,omitempty"`  // the lambda fires its callbacks itself (WithLambdaCallbackEnable)
+	Private  bool       `json:"private,omitempty"` // the lambda's body runs a component of its own that nobody is to be told about: on callbacks.InitCallbacks(ctx, info) without handlers it fires start and end
 	DelayUs  int        `json:"delay,omitempty"`
 	Chunks   int        `json:"chunks,omitempty"`
 	Shared   int        `json:"shared,omitempty"` // >0: nodes with the same value are the same *Lambda object
@@ -161,7 +163,17 @@ type sink struct {
 	curU int
 	// invocations that crossed from one call to another call on the same compiled graph (see neighbourKey)
 	stray []string
+	// invocations for a private component a node body runs on a context of its own (see privatePrefix): no unit
+	// of the run, not part of the observation; only the process-wide handlers may ever be told about it
+	priv []*evt
 }
+
+// A node body may run a component of its own behind the scenes: it calls the public
+// callbacks.InitCallbacks(ctx, info) WITHOUT handlers on the context it was handed ("any previously set RunInfo and
+// Handlers for this ctx will be overwritten") and fires start and end under the result. The handlers that apply to
+// the node are not told (they have had / will have the node's own start and end, once each); the run info of the
+// private component has a name with this prefix.
+const privatePrefix = "private-"
 
 // A graph case may make a second call on the SAME compiled object (before or while the observed call
 // runs), with handlers of its own: the "neighbour" call. Its context carries neighbourKey, and eino derives
@@ -208,7 +220,11 @@ func (s *sink) add(h, t int, info *callbacks.RunInfo, payload string, full bool)
 		e.Name = "<nil info>"
 	}
 	s.mu.Lock()
-	s.evts = append(s.evts, e)
+	if strings.HasPrefix(e.Name, privatePrefix) {
+		s.priv = append(s.priv, e)
+	} else {
+		s.evts = append(s.evts, e)
+	}
 	s.mu.Unlock()
 	return e
 }
